@@ -460,7 +460,8 @@ def _mirsym():
             stubs=["capnp generated accessors -> record model driven by locustdb-serialization/schemas/dbmeta.capnp", "capnp::serialize_packed::{write_message,read_message} -> identity on the record tree", "SimpleTracer::{start_span,end_span,annotate} -> no-op", "HashMap / BTreeMap -> association lists"],
             assumptions=["capnpc-generated accessors and the capnp runtime implement the record semantics of vlib/mirsym/capnp_model.py; serialize_packed is lossless"])
 
-    add("C15.b/sanitize_table_name", "C15", "mirsym", Q,
+    for _pid, _tag in (("C15", "C15.b"), ("C07", "C07.d")):
+      add(f"{_tag}/sanitize_table_name", _pid, "mirsym", Q,
         "storage::sanitize_table_name: a table name is used verbatim as its directory name exactly when it consists of [a-z0-9_.-] and does not start with '-' or '.'; every other name gets a directory name carrying the SHA-256 of the ORIGINAL name, so that names with the same sanitised form (case pairs, stripped characters) never share a directory",
         ["disk_store::storage::sanitize_table_name (+ retain closure)"],
         bounds="ASCII names of 0-2 (quick) / 0-3 (thorough) symbolic bytes; SHA-256 uninterpreted (collision-free by assumption); the text rendered by format! is not modelled (decided: which bytes are hashed, and when the name is modified); names over 189 bytes and non-ASCII names outside the claim",
